@@ -183,6 +183,19 @@ Proof.
   - apply IH; [|exact Hc]. intros Hin. apply Hn. now right.
 Qed.
 
+(* rewriting only the prev pointer of any node keeps every chain *)
+Lemma chain_set_prev m cells a nd p :
+  nth_error m a = Some nd -> chain m cells ->
+  chain (upd a (mkNode (nval nd) (nnext nd) p) m) cells.
+Proof.
+  intros Ha. induction cells as [|[b v] rest IH]; cbn; [tauto|].
+  intros [[q Hq] Hc]. split; [|auto].
+  destruct (Nat.eq_dec a b) as [->|Hne].
+  - rewrite Hq in Ha. injection Ha as <-. cbn [nval nnext].
+    exists p. apply nth_upd_same. eapply nth_some_lt; eauto.
+  - exists q. now rewrite nth_upd_other.
+Qed.
+
 Lemma chain_alloc m cells nd : chain m cells -> chain (m ++ [nd]) cells.
 Proof.
   induction cells as [|[b v] rest IH]; cbn; [tauto|].
@@ -345,21 +358,42 @@ Proof.
     + cbn [map]. exists 0, []. split; [reflexivity|]. split.
       * cbn [chain nxt]. split; [|exact I]. exists None. now apply nth_upd_same.
       * constructor; [cbn; tauto|constructor].
-  - (* at least two nodes: the second one is copied over the list struct *)
+  - (* at least two nodes: the second one is copied over the list struct, its
+       prev is cleared and the prev of ITS successor is pointed at the struct *)
     cbn [nd0 nxt nnext].
     destruct Hcr as [[pb Hpb] Hcr].
     assert (Hpb1 : nth_error m1 b = Some (mkNode w (nxt rest) pb)) by now apply nth_app_old.
     rewrite (copy_node_ok _ _ _ _ Hpb1). cbn [bind].
-    exists (upd L (mkNode w (nxt rest) pb) m1), (length m), (Some b), p0. split; [reflexivity|]. split.
-    + rewrite nth_upd_other by exact HLne. exact Hnode.
-    + cbn [map snd]. exists w, rest. split; [reflexivity|].
-      inversion Hnd as [|? ? HnL Hnd']; subst. inversion Hnd' as [|? ? Hnb Hnd'']; subst.
-      split.
-      * split.
-        -- exists pb. apply nth_upd_same. eapply nth_some_lt; eauto.
-        -- apply chain_upd_other; [|now apply chain_alloc].
-           intros Hin. apply HnL. now right.
-      * constructor; [|exact Hnd'']. intros Hin. apply HnL. now right.
+    assert (HLm1 : (L < length m1)%nat) by (eapply nth_some_lt; eauto).
+    erewrite set_prev_ok by (apply nth_upd_same; exact HLm1). cbn [bind nval nnext]. rewrite upd_upd.
+    set (m3 := upd L (mkNode w (nxt rest) None) m1).
+    assert (HL3 : nth_error m3 L = Some (mkNode w (nxt rest) None)) by (apply nth_upd_same; exact HLm1).
+    rewrite (load_ok _ _ _ HL3). cbn [bind nnext].
+    inversion Hnd as [|? ? HnL Hnd']; subst. inversion Hnd' as [|? ? Hnb Hnd'']; subst.
+    assert (Hc3 : chain m3 ((L, w) :: rest)).
+    { split.
+      - exists None. exact HL3.
+      - apply chain_upd_other; [|now apply chain_alloc].
+        intros Hin. apply HnL. now right. }
+    assert (Hnd3 : NoDup (L :: map fst rest)).
+    { constructor; [|exact Hnd'']. intros Hin. apply HnL. now right. }
+    assert (Hnode3 : nth_error m3 (length m) = Some nd0).
+    { unfold m3. rewrite nth_upd_other by exact HLne. exact Hnode. }
+    destruct rest as [|[c u] rest'].
+    + (* the new head has no successor *)
+      cbn [nxt]. cbn [bind].
+      exists m3, (length m), (Some b), p0. split; [reflexivity|]. split; [exact Hnode3|].
+      cbn [map snd]. exists w, []. split; [reflexivity|]. split; [exact Hc3|exact Hnd3].
+    + cbn [nxt].
+      destruct Hc3 as [HcL [[pc Hpc] Hcr3]].
+      rewrite (set_prev_ok _ _ _ _ Hpc). cbn [bind nval nnext].
+      assert (Hcne : c <> length m).
+      { intros ->. destruct Hcr as [[pc0 Hpc0] _]. apply nth_some_lt in Hpc0. lia. }
+      eexists _, (length m), (Some b), p0. split; [reflexivity|]. split.
+      * rewrite nth_upd_other by exact Hcne. exact Hnode3.
+      * cbn [map snd]. exists w, ((c, u) :: rest'). split; [reflexivity|]. split; [|exact Hnd3].
+        apply (chain_set_prev m3 ((L, w) :: (c, u) :: rest') c _ (Some L) Hpc).
+        split; [exact HcL|]. split; [eauto|exact Hcr3].
 Qed.
 
 (* ---- First ---- *)
@@ -802,6 +836,80 @@ Proof. unfold lq_size. intros H. cbn [lq_step]. unfold lq_dequeue. now rewrite H
 Lemma lq_size_zero_iff q l : lq_abs q l -> (lq_size q = 0 <-> l = []).
 Proof.
   intros [Hn _]. unfold lq_size. rewrite Hn. destruct l; cbn [length]; split; intros; try congruence; lia.
+Qed.
+
+(* ---- histories with Clear; history-level forms of the clauses ---- *)
+
+Lemma fifo_state_clear l pre : state_after fifo_step l (pre ++ [Clear]) = [].
+Proof. rewrite state_after_app. reflexivity. Qed.
+
+Lemma lq_abs_after_clear t pre :
+  lq_abs (state_after lq_step (lq_new t) (pre ++ [Clear])) [].
+Proof.
+  destruct (lq_refines t (pre ++ [Clear])) as [_ H]. now rewrite fifo_state_clear in H.
+Qed.
+
+(* after a Clear the linked queue answers like the FIFO started EMPTY: nothing
+   held before the Clear can come back *)
+Lemma lq_clear_restarts t pre ops :
+  outs lq_step (lq_new t) (pre ++ Clear :: ops) =
+    outs lq_step (lq_new t) pre ++ ONone :: map forget_err (outs fifo_step [] ops) /\
+  lq_abs (state_after lq_step (lq_new t) (pre ++ Clear :: ops)) (state_after fifo_step [] ops).
+Proof.
+  destruct (lq_refines t (pre ++ Clear :: ops)) as [H1 H2].
+  destruct (lq_refines t pre) as [H3 _].
+  destruct (fifo_clear_restarts [t] pre ops) as [F1 F2].
+  rewrite H1, H3, F1, map_app. rewrite F2 in H2. split; [reflexivity|exact H2].
+Qed.
+
+(* Size = enqueues - successful dequeues SINCE THE LAST CLEAR, in one statement *)
+Lemma sq_size_since_clear pre suf : no_clear suf ->
+  outs sq_step sq_new (pre ++ Clear :: suf ++ [Size]) =
+  outs sq_step sq_new (pre ++ Clear :: suf) ++
+  [OSize (Z.of_nat (length (enqueued suf)) - Z.of_nat (length (served (outs sq_step sq_new suf))))].
+Proof.
+  intros Hnc.
+  replace (pre ++ Clear :: suf ++ [Size]) with ((pre ++ Clear :: suf) ++ [Size])
+    by (rewrite <- app_assoc; reflexivity).
+  rewrite outs_app. f_equal.
+  rewrite (proj2 (sq_clear_restarts pre suf)).
+  pose proof (sq_size_counts suf Hnc) as H. rewrite outs_app in H.
+  now apply app_inv_head in H.
+Qed.
+
+Lemma lq_size_since_clear t pre suf : no_clear suf ->
+  outs lq_step (lq_new t) (pre ++ Clear :: suf ++ [Size]) =
+  outs lq_step (lq_new t) (pre ++ Clear :: suf) ++
+  [OSize (Z.of_nat (length (enqueued suf)) -
+          Z.of_nat (length (lq_served (state_after lq_step (lq_new t) (pre ++ [Clear])) suf)))].
+Proof.
+  intros Hnc.
+  replace (pre ++ Clear :: suf ++ [Size]) with ((pre ++ Clear :: suf) ++ [Size])
+    by (rewrite <- app_assoc; reflexivity).
+  rewrite outs_app. f_equal.
+  replace (pre ++ Clear :: suf) with ((pre ++ [Clear]) ++ suf) by (rewrite <- app_assoc; reflexivity).
+  rewrite state_after_app.
+  rewrite (lq_size_counts _ [] suf (lq_abs_after_clear t pre) Hnc). reflexivity.
+Qed.
+
+(* the counter itself (not only what Size printed) is never negative *)
+Lemma lq_counter_nonneg t ops : 0 <= lq_size (state_after lq_step (lq_new t) ops).
+Proof.
+  destruct (lq_refines t ops) as [_ [Hn _]]. unfold lq_size. rewrite Hn. lia.
+Qed.
+
+(* Search after any history: exactly membership in what the FIFO holds, and
+   the contents are untouched (DList.Find rewrites the list head in place) *)
+Lemma lq_search_exact_hist t ops x : exists b,
+  outs lq_step (lq_new t) (ops ++ [Search x]) = outs lq_step (lq_new t) ops ++ [OBool b] /\
+  (b = true <-> In x (state_after fifo_step [t] ops)) /\
+  lq_abs (state_after lq_step (lq_new t) (ops ++ [Search x])) (state_after fifo_step [t] ops).
+Proof.
+  destruct (lq_refines t ops) as [_ Habs].
+  destruct (lq_search_exact _ _ x Habs) as (b & Ho & Hb).
+  exists b. rewrite outs_app, Ho. split; [reflexivity|]. split; [exact Hb|].
+  destruct (lq_refines t (ops ++ [Search x])) as [_ H].
+  rewrite (state_after_app fifo_step) in H. exact H.
 Qed.
 
 (* ====================================================================== *)
